@@ -79,6 +79,12 @@ CHECKS = {
         "text": "Exhaustive TLC check of exactly-once / no-loss / FIFO / mutual exclusion and of completion under weak fairness (rendezvous of N, slow tasks) for N<=3; three spec mutants must be refuted. Every distinct simulated behaviour is replayed on the real pool with all threads gated at the hook points (a spec-legal step the code does not take = refusal), and free runs with seeded timing perturbation for N in 1..8 are validated event by event, with quiescence checks from the closures' own counters.",
         "note": "Trusted: TLC, hook placement (add-only, after each critical section), 3 s refusal timeout, single submitter.",
     },
+    "C13": {
+        "level": "model_checking",
+        "technique": "TLA+ Server.tla (no action writes fs: EnvFsUnchanged model-checked by TLC); wire traces of the real binary under strace validated by TLC (Trace_Server: TSyscall has no action for mutating calls, TManifest requires the manifest unchanged)",
+        "text": "All single mutations of 31 seed requests (incl. PUT/DELETE/PATCH/POST uploads, multipart filenames and ?name= values pointing outside) and 10 asset/dir targets x 6 methods are sent to the real binary running under strace -f; every path-naming system call is an event, and the full manifest (paths, kinds, sizes, hashes, link targets) of the served tree, a sibling directory and the parent is compared before/after.",
+        "note": "Trusted: strace's view of the process, the manifest walker. Paths under /dev, /proc, /sys are exempt.",
+    },
     "C18": {
         "level": "model_checking",
         "technique": "TLA+ spec of RFC 4648 (Codec_Base64) model-checked by TLC; TLC-enumerated inputs replayed on Base64::encode/decode; trace validation by TLC",
